@@ -241,40 +241,95 @@ func runC04(e *Engine, r *Report) {
 	if sfa := r.need("internal/raft.setFastApply"); sfa != nil {
 		fa := e.Field("raftpb", "Update", "FastApply")
 		isEmptySS := e.PkgFunc("raftpb", "IsEmptySnapshot")
-		falseStores := 0
-		snapGuard, overlapGuard := false, false
-		forEachInstr(sfa, func(in ssa.Instruction) {
+		entIndex := e.Field("raftpb", "Entry", "Index")
+		ce := e.Field("raftpb", "Update", "CommittedEntries")
+		es := e.Field("raftpb", "Update", "EntriesToSave")
+		idxOf := func(src *types.Var) VM {
+			return func(v ssa.Value) bool {
+				fromSrc := func(x ssa.Value) bool { return fieldV(src)(x) }
+				if fieldV(entIndex)(v) && e.dependsOn(v, fromSrc, 0) {
+					return true
+				}
+				// index taken by a small helper: lastIndexOf(ud.CommittedEntries)
+				if c, ok := stripConv(v).(*ssa.Call); ok {
+					if sc := c.Call.StaticCallee(); sc != nil && fnPkg(sc) == fnPkg(sfa) && e.returnDependsOn(sc, isFieldLoad(entIndex), 0) {
+						for _, a := range c.Call.Args {
+							if e.dependsOn(a, fromSrc, 0) {
+								return true
+							}
+						}
+					}
+				}
+				return false
+			}
+		}
+		applyIdx, saveIdx := idxOf(ce), idxOf(es)
+		isFA := func(in ssa.Instruction) (*ssa.Store, bool) {
 			st, ok := in.(*ssa.Store)
+			if !ok {
+				return nil, false
+			}
+			f, _, ok := fieldOfAddr(st.Addr)
+			return st, ok && f == fa
+		}
+		var loadFA VM = func(v ssa.Value) bool { f, _, ok := loadedField(v); return ok && f == fa }
+		// "FastApply is returned true only when no snapshot is pending and the
+		// entries to apply do not overlap the entries still being saved": from
+		// every store that can set it true, each path to return that passes no
+		// later store establishes both facts (or is a path on which the stored
+		// value was tested to be false).
+		type need struct {
+			name string
+			has  func(fs []Fact, st *ssa.Store) bool
+		}
+		needs := []need{
+			{"no snapshot pending", func(fs []Fact, st *ssa.Store) bool {
+				if hasBoolFact(fs, e.callV(isEmptySS), true) {
+					return true
+				}
+				return e.callV(isEmptySS)(st.Val) && hasBoolFact(fs, loadFA, true)
+			}},
+			{"no overlap between entries to apply and entries to save", func(fs []Fact, st *ssa.Store) bool {
+				return hasCmpFact(fs, "<", applyIdx, saveIdx) || hasCmpFact(fs, ">", applyIdx, saveIdx) ||
+					hasCmpFact(fs, "<=", lenOfV(fieldV(ce)), intConstV(0)) || hasCmpFact(fs, "<=", lenOfV(fieldV(es)), intConstV(0)) ||
+					hasCmpFact(fs, "==", lenOfV(fieldV(ce)), intConstV(0)) || hasCmpFact(fs, "==", lenOfV(fieldV(es)), intConstV(0))
+			}},
+		}
+		nStores := 0
+		okAll := true
+		var badPos ssa.Instruction
+		forEachInstr(sfa, func(in ssa.Instruction) {
+			st, ok := isFA(in)
 			if !ok {
 				return
 			}
-			f, _, ok := fieldOfAddr(st.Addr)
-			if !ok || f != fa {
+			if cb, isC := isConstBool(st.Val); isC && !cb {
 				return
 			}
-			if cb, isC := isConstBool(st.Val); isC && !cb {
-				falseStores++
-				fs := FactsAt(in)
-				if hasBoolFact(fs, e.callV(isEmptySS), false) {
-					snapGuard = true
+			nStores++
+			for ni, nd := range needs {
+				if ni == 0 && e.callV(isEmptySS)(st.Val) {
+					// the stored value is the emptiness test itself: true only without a snapshot;
+					// still required on paths that branch on it (handled by the load fact)
 				}
-				entIndex := e.Field("raftpb", "Entry", "Index")
-				// exactly lastApply >= firstSave && lastApply <= lastSave: a stronger
-				// test would leave part of the overlap on the fast path
-				ce := e.Field("raftpb", "Update", "CommittedEntries")
-				es := e.Field("raftpb", "Update", "EntriesToSave")
-				var applyIdx VM = func(v ssa.Value) bool {
-					return fieldV(entIndex)(v) && e.dependsOn(v, func(x ssa.Value) bool { return fieldV(ce)(x) }, 0)
-				}
-				var saveIdx VM = func(v ssa.Value) bool {
-					return fieldV(entIndex)(v) && e.dependsOn(v, func(x ssa.Value) bool { return fieldV(es)(x) }, 0)
-				}
-				if hasCmpFactExact(fs, ">=", applyIdx, saveIdx) && hasCmpFactExact(fs, "<=", applyIdx, saveIdx) {
-					overlapGuard = true
+				res := e.findPath(sfa, in, isReturn, func(x ssa.Instruction) bool { _, is := isFA(x); return is }, func(p, s2 *ssa.BasicBlock) bool {
+					fs := expandFacts(edgeOnly(p, s2))
+					if hasBoolFact(fs, loadFA, false) {
+						return false // the value was tested false on this path
+					}
+					return !nd.has(fs, st)
+				})
+				if res.Found && !(ni == 0 && e.callV(isEmptySS)(st.Val) && !branchesOn(sfa, loadFA)) {
+					okAll = false
+					badPos = in
 				}
 			}
 		})
-		r.check(falseStores >= 2 && snapGuard && overlapGuard, "GD-fastapply", "setFastApply clears FastApply for snapshots and for apply/save overlap", e.pos(sfa.Pos()),
+		pos := e.pos(sfa.Pos())
+		if badPos != nil {
+			pos = e.ipos(badPos)
+		}
+		r.check(okAll && nStores >= 1, "GD-fastapply", "setFastApply clears FastApply for snapshots and for apply/save overlap", pos,
 			"entries are applied before the save only when they are already durable and no snapshot is pending",
 			"setFastApply no longer clears FastApply for a pending snapshot or for committed entries that overlap the entries to save")
 		// callers: GetUpdate uses its result
@@ -610,4 +665,19 @@ func runTanSync(e *Engine, r *Report) {
 		r.check(okf, "PAIR-tan-sync", "write's sync flag covers entries, snapshot and term/vote change", e.pos(wr.Pos()),
 			"a sync is requested whenever entries, a snapshot or a term/vote change were written", "write's sync flag no longer depends on entries, snapshot and the term/vote change test")
 	}
+}
+
+// branchesOn: some If of fn tests a value matching m (possibly negated).
+func branchesOn(fn *ssa.Function, m VM) bool {
+	found := false
+	forEachInstr(fn, func(in ssa.Instruction) {
+		if ifi, ok := in.(*ssa.If); ok {
+			for _, f := range expandFacts([]Fact{{ifi.Cond, true}}) {
+				if m(f.V) {
+					found = true
+				}
+			}
+		}
+	})
+	return found
 }
